@@ -60,6 +60,58 @@ CLAIMS.update({
         ref='DESIGN.md section 4, C15'),
 })
 
+CLAIMS.update({
+    'C02': dict(
+        technique='effect analysis over atomic blocks of the Cluster (path enumeration, helper/spawn inlining, membership facts)',
+        text='Static: pool state is private to Cluster and getters return copies; in every atomic block (path piece '
+             'between two yields, helpers and spawned children inlined, loop invariants inferred) every machine is '
+             'either untouched or moved by one remove plus one append to a different pool; refusals precede effects '
+             'and a helper\'s refusal status is never dropped; the usage counters move exactly with the containers '
+             'they mirror. These are necessary conditions for exactly-one-pool and true counts at every instant.',
+        note='Final state ("all machines available at the end") needs termination and is not decided. '
+             'Assumes machines are unique objects and list.append/remove semantics.',
+        ref='DESIGN.md section 4, C02'),
+    'C05': dict(
+        technique='reservation-pairing, loop-yield, release-reachability and partial-operation precondition rules (path dominance)',
+        text='Static, FOUR NECESSARY CLAUSES ONLY - termination and the serial time bound are run-time quantities and '
+             'are not decided: L1 the ingest reservation is taken only with a true verdict, the consumer starts ingest, '
+             'ingest releases the same amount on every exit; L2 every while-cycle of every SimPy process yields; '
+             'L3 batch partitions are released at workflow end; L4 every [-1]/pop on a tier stored list and every '
+             'free-list remove is dominated by its precondition.',
+        note='Each clause is necessary: its violation makes a feasible configuration block forever or raise. Sufficiency is not claimed.',
+        ref='DESIGN.md section 4, C05'),
+    'C06': dict(
+        technique='affine time-effect analysis of do_work per path + formula normal form + provenance',
+        text='Static: calculate_runtime is max(floor(flops/cpu), floor(data/bandwidth)) in normal form; on every path of '
+             'do_work the waits after the recorded start plus (aft - now) equal the total duration when it is >= 1 and '
+             '1 otherwise; the total flows only from the delay model applied to the duration; ingest tasks carry the '
+             'observation duration and no work.',
+        note='Non-negative demands/speeds (int(a/b) = floor). SimPy timeout semantics trusted.',
+        ref='DESIGN.md section 4, C06'),
+    'C11': dict(
+        technique='guard-first / effect-freedom / single-registration rules + consume-once rule on the collation',
+        text='Static: start and resume test the running flag and refuse before any effect; resume registers nothing '
+             'and writes no state; every actor loop is registered exactly once, only in start; the event collation '
+             'empties what it read (it runs twice for the pause step); processes sleep in whole steps.',
+        note='Equality of whole trajectories follows from these plus SimPy determinism (witness checked against the installed SimPy); it is not proved as such.',
+        ref='DESIGN.md section 4, C11'),
+    'C12': dict(
+        technique='registration-order rule, per-cycle path rule on Monitor.run, column provenance table, counter coupling over atomic blocks',
+        text='Static: the monitor is the first registered process; each cycle appends exactly one row and sleeps one '
+             'step; each of 11 columns reads the state field it names; the usage counters behind the cluster columns '
+             'move with their containers in every atomic block (same analysis as C02.P4).',
+        note='SimPy order model verified against the installed source; values of the fields themselves are decided by C02/C07 rules.',
+        ref='DESIGN.md section 4, C12'),
+    'C13': dict(
+        technique='event-table pairing rule over paths + SimPy process-order model (roots, registration order) for clear/emit/read ordering',
+        text='Static: each of the eight life-cycle events has exactly one emit site, on exactly the paths of its '
+             'transition, stamped env.now; the monitor collates all three lists and consumes them; no clear of a list '
+             'can run between an emit into it and the monitor\'s next read, judged with the registration order of the '
+             'actor loops and the actor each emitting/clearing process is rooted at.',
+        note='Numeric order of timestamps is not decided; it follows from emit-at-transition plus the spawn chain.',
+        ref='DESIGN.md section 4, C13'),
+})
+
 NOT_YET = 'check under construction in this session (see DESIGN.md section 4); not claimed until its command exists'
 
 
